@@ -329,6 +329,10 @@ def run(ctx):
     saturated_part(ctx, fails)
     measures_part(ctx, fails)
     outcome_rows_part(ctx, fails)
+    # rows with a missing outcome are RETAINED by TimeFixedGFormula: a stochastic plan treats a share of all retained rows (p = 1:
+    # everybody), whichever `predict_missing` is asked for -- the degenerate-plan comparison of props/c14 on frames with missing outcomes
+    from props import c14
+    c14.degenerate_part(ctx, fails, only_missing=True)
     report(ctx, fails)
 
 
